@@ -1,6 +1,7 @@
 #!/bin/bash
 # usage: regress_seeded.sh [id-glob]   - runs every seeded change against the first check that is recorded to catch it
 cd /verif
+export PVF_NO_SHRINK=1
 for d in seeded/${1:-C*}; do
   id=$(basename $d); [ -f $d/meta.json ] || continue
   chk=$(python3 -c "import json;m=json.load(open('$d/meta.json'));print((m['caught_by_quick_tier_of'] or [''])[0])")
